@@ -1008,7 +1008,7 @@ fn case_raw(rng: &mut Rng, dbg: bool, len: usize) -> Rec {
             0..=17 => {
                 // add_slip with the coordinates of the slip (what a consistent caller passes)
                 let mut s = mk_slip(if rng.chance(9, 10) { &me } else { &pk2 }, amount(rng), *rng.pick(&tys));
-                s.block_id = rng.range(0, 9);
+                s.block_id = if rng.chance(1, 40) { 0 } else { rng.range(1, 9) };
                 s.tx_ordinal = rng.range(0, 3);
                 s.slip_index = rng.range(0, 2) as u8;
                 if rng.chance(1, 2) {
@@ -1209,13 +1209,13 @@ fn case_raw(rng: &mut Rng, dbg: bool, len: usize) -> Rec {
             }
             _ => {
                 // add_to_pending
-                let first = match rng.below(8) {
+                let first = match rng.below(40) {
                     0 => None,
                     1 => Some(pk2),
                     _ => Some(me),
                 };
-                let is_gt = rng.chance(1, 10);
-                let with_hash = !rng.chance(1, 10);
+                let is_gt = rng.chance(1, 40);
+                let with_hash = !rng.chance(1, 40);
                 let mut t = Transaction::default();
                 if is_gt {
                     t.transaction_type = TransactionType::GoldenTicket;
@@ -1305,7 +1305,10 @@ fn case_scripted(which: u64, dbg: bool) -> Rec {
 }
 
 /// node level: real chain through Blockchain::add_block
-async fn case_node(rng: &mut Rng, dbg: bool, gp: u64, extra_len: u64) -> (Rec, Vec<Block>) {
+/// `fees`: transactions may pay fees. With fees the treasury fills and the rebroadcast payout
+/// multiplier exceeds 1, at which point Block::create tends to produce blocks its own validation
+/// rejects (rebroadcast input carries the paid-out amount: not C19's business) and the chain ends.
+async fn case_node(rng: &mut Rng, dbg: bool, gp: u64, extra_len: u64, fees: bool) -> (Rec, Vec<Block>) {
     let mut rec = Rec::new("node", gp);
     let mut tab = Tab::new();
     let params = Params { genesis_period: gp, ..Params::default() };
@@ -1382,6 +1385,13 @@ async fn case_node(rng: &mut Rng, dbg: bool, gp: u64, extra_len: u64) -> (Rec, V
             let mut w = node.wallet_lock.write().await;
             let (pays, fee) = pick_request(rng, &w, latest, gp);
             let keys: Vec<SaitoPublicKey> = pays.iter().map(|_| if rng.chance(1, 2) { pk2 } else { pk3 }).collect();
+            // with overflow checks such a request panics and would end the chain here; the unit-level
+            // cases cover that panic, the release run covers the wrap
+            let fee_eff = if fee > w.get_available_balance() { 0 } else { fee };
+            let total: u128 = pays.iter().map(|p| *p as u128).sum::<u128>() + fee_eff as u128;
+            if dbg && total >= (1u128 << 64) {
+                continue;
+            }
             let call = CreateCall { keys, payments: pays, fee, latest, gp };
             let r = do_create(
                 &mut rec,
@@ -1420,7 +1430,7 @@ async fn case_node(rng: &mut Rng, dbg: bool, gp: u64, extra_len: u64) -> (Rec, V
                 if let Some(k) = f.first() {
                     let input = Slip::parse_slip_from_utxokey(k).unwrap();
                     let a = rng.range(1, 5000);
-                    let feeamt = rng.range(0, 20);
+                    let feeamt = if fees { rng.range(0, 20) } else { 0 };
                     let mut outs = vec![(pk, input.amount - a - feeamt)];
                     if rng.chance(3, 4) {
                         outs.push((me, a));
@@ -1438,6 +1448,9 @@ async fn case_node(rng: &mut Rng, dbg: bool, gp: u64, extra_len: u64) -> (Rec, V
         // inputs that the next block rebroadcasts automatically must not be spent in it as well
         let low_next = (latest + 1).saturating_sub(gp);
         built.retain(|t| t.from.iter().all(|s| s.amount == 0 || s.block_id >= low_next));
+        if !fees {
+            built.retain(|t| t.total_in == t.total_out);
+        }
         if !built.is_empty() && rng.chance(2, 3) {
             let j = rng.below(built.len() as u64) as usize;
             let mut t = built.remove(j);
@@ -1541,7 +1554,7 @@ fn main() {
         for gp in [3u64, 5, 8] {
             let extra = if thorough { rng.range(0, 6) } else { 0 };
             let mut r2 = rng.fork();
-            let (rec, blocks) = rt.block_on(case_node(&mut r2, dbg, gp, extra + round % 2));
+            let (rec, blocks) = rt.block_on(case_node(&mut r2, dbg, gp, extra + round % 2, round % 2 == 1));
             recs.push(rec);
             if blocks.len() > 3 {
                 recs.push(case_real_blocks(&mut r2, dbg, gp, &blocks));
